@@ -322,6 +322,36 @@ func runC06(c *Ctx) {
 	}
 	c.Floor("C06.P4-miss-recorded", 2)
 
+	// ---- P7 point lookups: the update map decides whenever it has the key -------------------------------------
+	// (a nil entry there is the tombstone of an expired provider; falling through to the main map on a nil value
+	// would resurrect it)
+	nLook := 0
+	for _, f := range c.Funcs(pcachePkg) {
+		if !isReaderSide(c, f.SSA) {
+			continue // writers merge through their private update map (P5)
+		}
+		instrs(f.SSA, func(in ssa.Instruction) {
+			lk, ok := in.(*ssa.Lookup)
+			if !ok {
+				return
+			}
+			x := c.E(lk)
+			if x.Op != "lookup" || len(x.Args) != 2 {
+				return
+			}
+			mf := strip(x.Args[0])
+			if mf.Op != "field" || fieldOwner(mf) != "readOnly" || mf.Name != "m" {
+				return
+			}
+			nLook++
+			key := x.Args[1]
+			_, g := c.Guarded(in, Extract("1", Op("lookup", "", Field("u", Any()), Is(key))), false)
+			c.Check(g, "C06.P7-reader-precedence", f.Name+" › main-map lookup", in.Pos(),
+				"the main map is consulted only on the edge where the update map does not have the key (comma-ok false)", "the main map is consulted although the update map may hold the key (e.g. on a nil entry): an expired or replaced record is served from the old main map")
+		})
+	}
+	c.Floor("C06.P7-reader-precedence", 1)
+
 	// ---- P5 / P6 shared with C07 ---------------------------------------------------------------
 	pcacheMergePrecedence(c, "C06.P5-merge-precedence")
 	pcacheLoadUnderToken(c, "C06.P6-snapshot-loaded-under-token")
@@ -467,6 +497,57 @@ func pcacheLoadUnderToken(c *Ctx, rule string) {
 		}
 	}
 	c.Floor(rule, 3)
+	// the snapshot a writer reads from is one it loaded itself (under the token, by the rule above) — not one handed
+	// in by a caller that loaded it before the token was taken
+	writers := map[*ssa.Function]bool{}
+	for _, w := range pcacheWriters(c) {
+		writers[w.SSA] = true
+	}
+	isLoadX := func(x *X) bool {
+		x = strip(x)
+		if x == nil || x.Op != "call" {
+			return false
+		}
+		if r := c.Role("pcache.load"); r != nil && x.Callee == r {
+			return true
+		}
+		return nameMatches(x.Name, "atomic.Pointer[pcache.readOnly]).Load[pcache.readOnly]")
+	}
+	for _, w := range pcacheWriters(c) {
+		seen := map[*ssa.Parameter]bool{}
+		instrs(w.SSA, func(in ssa.Instruction) {
+			v, ok := in.(ssa.Value)
+			if !ok {
+				return
+			}
+			switch in.(type) {
+			case *ssa.Field, *ssa.FieldAddr:
+			default:
+				return
+			}
+			x := c.E(v)
+			if x.Op != "field" || fieldOwner(x) != "readOnly" {
+				return
+			}
+			base := strip(x.Args[0])
+			p, isParam := base.V.(*ssa.Parameter)
+			if base.Op != "param" || !isParam || seen[p] || p.Parent() != w.SSA {
+				return
+			}
+			seen[p] = true
+			vals, at := c.ActualsAt(base)
+			bad := ""
+			if len(vals) == 0 {
+				bad = "a snapshot parameter whose callers are not all known"
+			}
+			for i, a := range vals {
+				if !isLoadX(a) || !writers[topFunc(at[i].Parent())] {
+					bad = "a snapshot obtained by " + c.short(at[i].Parent().String()) + " (" + abbreviate(a.String()) + "), which does not hold the write token"
+				}
+			}
+			c.Check(bad == "", rule, w.Name+" › snapshot parameter "+p.Name(), in.Pos(), "the snapshot handed in was loaded by a writer (under the token)", "writer extends "+bad+": a publication made in between is overwritten")
+		})
+	}
 }
 
 // isFreshMap: a map made in this function, or a parameter of a helper whose
